@@ -795,6 +795,13 @@ def obsOf (c : Cluster) (d : Delivery) : Wait.Obs :=
 def flushWait (group : String) (s : St) (w : Wait.WState Id) (n0 : Nat) : St :=
   (w.events.drop n0).foldl (fun s e => s.emit (.wait group e.1 (wevName e.2))) s
 
+/-- what the runner does with a status event before the task sees it: (environment action first,) cache Put, optional
+forwarded status event -/
+def deliverState (s : St) (d : Delivery) : St :=
+  let cl := if d.envRemove then s.cl.remove d.id else s.cl
+  let s1 : St := { s with cl := cl, cache := (d.id, obsOf cl d) :: s.cache }
+  if s1.run.opts.emitStatus then s1.emit (.status d.id (kstatusName d.status)) else s1
+
 /-- one delivery attempt (`deliver` in the harness); returns the new state and whether the delivery was made -/
 def deliverOne (group : String) (n : Nat) (ws : WaitSt) (d : Delivery) : WaitSt × Bool :=
   if ws.stopped || ws.w.cancelled || ws.w.pending.isEmpty then (ws, false)
@@ -803,10 +810,8 @@ def deliverOne (group : String) (n : Nat) (ws : WaitSt) (d : Delivery) : WaitSt 
   else if ws.s.run.watchErr = some (n, ws.delivered) then
     ({ ws with s := { ws.s with watcherFailed := true }, w := Wait.cancel ws.w, stopped := true }, false)
   else
-    let cl := if d.envRemove then ws.s.cl.remove d.id else ws.s.cl
-    let o := obsOf cl d
-    let s1 := { ws.s with cl := cl, cache := (d.id, o) :: ws.s.cache }
-    let s2 := if s1.run.opts.emitStatus then s1.emit (.status d.id (kstatusName d.status)) else s1
+    let s2 := deliverState ws.s d
+    let o := obsOf s2.cl d
     let n0 := ws.w.events.length
     let w' := Wait.statusUpdate { ws.w with mgr := s2.mgr } d.id o
     let s3 := flushWait group { s2 with mgr := w'.mgr } w' n0
